@@ -261,8 +261,16 @@ def retry_case(draw):
             events.append({'t': tc + draw(st.sampled_from([0.0, 0.01, 0.05, 0.15, 0.25, 0.9])), 'kind': 'reopen'})
             if draw(st.booleans()):
                 i = len(reqs)
-                reqs.append({'t': events[-1]['t'] + 0.02, 'port': port, 'channel': channel, 'data': [9, 0x70, i], 'expected': [9], 'timeout': 0.2,
-                             'reply': {'lost': 1, 'delay': 0.01, 'tail': [0xF0]}})
+                withexp = [r for r in reqs if r['expected'] and not r.get('thread') and r['t'] < tc]
+                if withexp and draw(st.booleans()):
+                    # the new session asks again for what a request of the previous session was still waiting for
+                    base = withexp[draw(st.integers(0, len(withexp) - 1))]
+                    reqs.append({'t': events[-1]['t'] + draw(st.sampled_from([0.0, 0.02])), 'port': base['port'], 'channel': base['channel'],
+                                 'data': list(base['expected']) + [0x70, i], 'expected': list(base['expected']), 'timeout': 0.2,
+                                 'reply': {'lost': 1, 'delay': 0.01, 'tail': [0xF0]}})
+                else:
+                    reqs.append({'t': events[-1]['t'] + 0.02, 'port': port, 'channel': channel, 'data': [9, 0x70, i], 'expected': [9], 'timeout': 0.2,
+                                 'reply': {'lost': 1, 'delay': 0.01, 'tail': [0xF0]}})
     unrelated = draw(st.lists(st.fixed_dictionaries({'t': st.sampled_from([0.05, 0.15, 0.25, 0.6, 1.1]), 'port': st.sampled_from([2, 4, 5, 0]),
                                                      'channel': st.integers(0, 3), 'data': st.lists(st.sampled_from([1, 2, 5, 7]), min_size=1, max_size=3)}), max_size=3))
     return {'needs_resending': draw(st.sampled_from([True, True, True, False])), 'requests': reqs, 'events': events, 'unrelated': unrelated,
